@@ -249,7 +249,6 @@ func ExtendC06(w *World, rng *rand.Rand, o C06Extra) {
 			ms = append(ms, media{"dude.jpg", testdata("index", "indextest", "testdata", "dude.jpg")})
 		}
 		rng.Shuffle(len(ms), func(i, j int) { ms[i], ms[j] = ms[j], ms[i] })
-		ms = ms[:2+rng.Intn(len(ms)-1)]
 		for i, m := range ms {
 			var mt time.Time
 			if rng.Intn(2) == 0 {
